@@ -6,6 +6,9 @@ import Uft.Lemmas.DemangleMangle
    dmpre <hex|->   -> result of the model of the code as it is (no repair)
    dmx <6 x 0|1> <hex|->  -> result with the selected repairs (F10 F10b F10c F10d F10e F10g)
    output: <hex|->  the returned string | NULL | CRASH <kind> | FUEL
+   cov <hex>       -> "ok": runs the repaired model and writes the production trace to stderr
+                      (NAME / COV <fn> <c0> <c1> <type!=0> <templates!=0> / RET <fn> <ok>), used by the check
+                      to report which grammar functions and branches the generated names exercise
    mg <fn|ctor|dtor|op> <k hex | op code hex | -> <params hex|-> <name hex> <scope hex>*
                    -> "<hex of mangle d> <hex of qualifiedName d>" for the `Decl` of the theorem
                       c13_mangle_demangle_partial (the Lean `mangle` is compared with the compilers)
@@ -33,6 +36,44 @@ def runOn (fx : Fixes) (hex : String) : String :=
   | some bs => if bs.contains 0 then "bad-op" else showResult (demangle fx bs.toArray)
   | none => "bad-op"
 
+/-! ### production trace (`cov`) -/
+
+def fnName : Fn → String
+  | .typeLoop _ => "typeLoop"
+  | .ftLoop _ => "ftLoop"
+  | f => ((toString (repr f)).replace "Uft.Demangle.Fn." "")
+
+/-- `run` with every call of a grammar function logged to stderr -/
+def runCov : Nat → Fn → M Int
+  | 0, _ => fun _ _ => .fuel
+  | n + 1, f => fun e st =>
+    let c0 := if st.pos < st.len then (e.rd st.pos).getD 0 else 0
+    let c1 := if st.pos + 1 < st.len then (e.rd (st.pos + 1)).getD 0 else 0
+    let key := s!"COV {fnName f} {c0} {c1} {if st.type == 0 then 0 else 1} {if st.templates == 0 then 0 else 1}"
+    dbgTrace key fun _ =>
+      match body (runCov n) f e st with
+      | .ok r st' => dbgTrace s!"RET {fnName f} {if r < 0 then 0 else 1}" fun _ => .ok r st'
+      | x => x
+
+def covRun (hex : String) : String :=
+  match parseHexBytes hex with
+  | some bs =>
+    let s0 := bs.toArray
+    let s := if globalPrefix.isPrefixOf bs then s0.extract 15 s0.size else s0
+    if s.getD 0 0 == 95 && s.getD 1 0 == 90 then
+      dbgTrace "NAME" fun _ =>
+        let e : Env := { s := s, fx := Fixes.all }
+        match runCov (fuelFor s) .encoding e { pos := 0, len := s.size } with
+        | .ok r st =>
+          if r ≥ 0 && st.level == 0 && st.pos < st.len && st.typeInfo then
+            match runCov (fuelFor s) .name e st with
+            | .ok _ _ => "ok"
+            | _ => "ok"
+          else "ok"
+        | _ => "ok"
+    else "skip"
+  | none => "bad-op"
+
 def mkLeaf (kind arg : String) : Option Leaf :=
   match kind, parseHexBytes arg with
   | "fn", _ => some .fn
@@ -52,6 +93,7 @@ def handle (ws : List String) : String :=
   match ws with
   | ["dm", hex] => runOn Fixes.all hex
   | ["dmpre", hex] => runOn Fixes.none hex
+  | ["cov", hex] => covRun hex
   | "mg" :: kind :: arg :: params :: name :: scope => mangleCmd kind arg params name scope
   | ["dmx", mask, hex] =>
     match parseMask mask with
